@@ -643,6 +643,8 @@ func goType(code int) string {
 		return "Created"
 	case 404:
 		return "NotFound"
+	case 304:
+		return "NotModified"
 	case 0:
 		return "Default"
 	}
